@@ -168,9 +168,11 @@ def symbol_names(expr):
 # the collector
 # ---------------------------------------------------------------------------------------------------
 class Cmp:
-    def __init__(self, cx, tol, expr_tol=1e-5, sym_box=2.0):
+    def __init__(self, cx, tol, expr_tol=1e-5, sym_box=2.0, box=4.0, strict_exponents=False):
         self.cx = cx
         self.tol = tol
+        self.box = box  # box of symbolic exponents (number of periods two equal gates can be apart)
+        self.strict_exponents = strict_exponents  # True: exponents must come back as numbers, not only modulo the period
         self.expr_tol = expr_tol
         self.sym_box = sym_box
         self.conds = []
@@ -207,11 +209,12 @@ class Cmp:
             return self.cond(isinstance(got, _CONC_BOOL) and isinstance(exp, _CONC_BOOL) and bool(got) == bool(exp), f'{why}: bool {got!r} vs {exp!r}')
         if not (is_reallike(got) and is_reallike(exp)):
             return self.fail(f'{why}: not numbers: {type(got).__name__} vs {type(exp).__name__}')
-        if is_intlike(got) and is_intlike(exp):
+        if is_intlike(exp):
+            # an integer is expected back as that integer (value equality: 3.0 == 3 is accepted, 3.0000001 is not)
             return self.cond(got == exp, f'{why}: {got!r} != {exp!r}')
         self.nums.append((got, exp, why))
 
-    def num_mod(self, got, exp, period, why=''):
+    def num_mod(self, got, exp, period, why='', kmax=1):
         """two real numbers equal modulo `period` within the margin (fields the constructors canonicalise)"""
         if isinstance(got, sympy.Basic) or isinstance(exp, sympy.Basic):
             return self.expr(got, exp, why)
@@ -219,7 +222,7 @@ class Cmp:
             return self.fail(f'{why}: not numbers: {type(got).__name__} vs {type(exp).__name__}')
         d = got - exp
         alts = []
-        for kk in (-1, 0, 1):
+        for kk in range(-kmax, kmax + 1):
             dk = d - kk * period
             alts.append(AND([dk <= self.tol, dk >= -self.tol]))
         self.cond(OR(alts), f'{why}: {got!r} vs {exp!r} (mod {period:g})')
@@ -355,14 +358,15 @@ class Cmp:
     def tag(self, got, exp, why=''):
         import cirq_google as cg
         from cirq_google.ops.calibration_tag import CalibrationTag
+        from cirq_google.ops.dynamical_decoupling_tag import DynamicalDecouplingTag
 
         marker = (cg.PhysicalZTag, cg.FSimViaModelTag, cg.TwoPulseFSimTag, cg.CompressDurationTag)
         if isinstance(exp, marker):
             return self.cond(type(got) is type(exp), f'{why}: tag {got!r} vs {exp!r}')
         if isinstance(exp, CalibrationTag):
             return self.cond(isinstance(got, CalibrationTag) and got.token == exp.token, f'{why}: {got!r} vs {exp!r}')
-        if isinstance(exp, cg.DynamicalDecouplingTag):
-            return self.cond(isinstance(got, cg.DynamicalDecouplingTag) and got.protocol == exp.protocol, f'{why}: {got!r} vs {exp!r}')
+        if isinstance(exp, DynamicalDecouplingTag):
+            return self.cond(isinstance(got, DynamicalDecouplingTag) and got.protocol == exp.protocol, f'{why}: {got!r} vs {exp!r}')
         if isinstance(exp, cg.InternalTag):
             if not self.cond(isinstance(got, cg.InternalTag) and got.name == exp.name and got.package == exp.package, f'{why}: {got!r} vs {exp!r}'):
                 return
@@ -391,18 +395,27 @@ class Cmp:
         import cirq_google as cg
         from cirq_google.experimental.ops import CouplerPulse
 
-        for fam in (cirq.XPowGate, cirq.YPowGate, cirq.ZPowGate, cirq.HPowGate, cirq.CZPowGate, cirq.ISwapPowGate):
+        # G**t up to global phase is periodic in t (X, Y, Z, H, CZ: G**2 = 1; ISWAP**4 = 1 and ISWAP**2 is not a
+        # phase): cirq's own equality identifies exponents modulo that period, the constant table merges equal
+        # operations, so the exponent is compared modulo the period
+        for fam, period in ((cirq.XPowGate, 2.0), (cirq.YPowGate, 2.0), (cirq.ZPowGate, 2.0), (cirq.HPowGate, 2.0), (cirq.CZPowGate, 2.0), (cirq.ISwapPowGate, 4.0)):
             if isinstance(exp, fam):
                 # cirq.X / cirq.Rx ... are subclasses of the Pow gate that differ by construction sugar or by
                 # global_shift, which is a global phase: the one detail the format may normalise
                 if self.cond(isinstance(got, fam), f'{why}: gate {type(got).__name__} is not a {fam.__name__}'):
-                    self.num(got.exponent, exp.exponent, f'{why}.exponent')
+                    if self.strict_exponents:
+                        self.num(got.exponent, exp.exponent, f'{why}.exponent')
+                    else:
+                        self.num_mod(got.exponent, exp.exponent, period, f'{why}.exponent', kmax=int(np.ceil(2 * self.box / period)))
                 return
         if not self.cond(type(got) is type(exp), f'{why}: gate type {type(got).__name__} vs {type(exp).__name__}'):
             return
         t = type(exp)
         if t is cirq.PhasedXPowGate:
-            self.num(got.exponent, exp.exponent, f'{why}.exponent')
+            if self.strict_exponents:
+                self.num(got.exponent, exp.exponent, f'{why}.exponent')
+            else:
+                self.num_mod(got.exponent, exp.exponent, 2.0, f'{why}.exponent', kmax=int(np.ceil(self.box)))
             # the constructor stores phase_exponent modulo 2 (canonicalize_half_turns)
             return self.num_mod(got.phase_exponent, exp.phase_exponent, 2.0, f'{why}.phase_exponent')
         if t is cirq.PhasedXZGate:
@@ -461,7 +474,12 @@ class Cmp:
     def op(self, got, exp, why='', ordered_tags=True):
         import cirq
 
-        self.cond(tuple(got.qubits) == tuple(exp.qubits), f'{why}: qubits {got.qubits} vs {exp.qubits}')
+        if isinstance(exp.gate, (cirq.CZPowGate, cirq.ISwapPowGate, cirq.FSimGate)):
+            # gates documented as symmetric in their two qubits (InterchangeableQubitsGate): cirq equality ignores the
+            # order, equal operations share one constant, so the order is not part of the circuit's meaning
+            self.cond(set(got.qubits) == set(exp.qubits) and len(got.qubits) == len(exp.qubits), f'{why}: qubits {got.qubits} vs {exp.qubits}')
+        else:
+            self.cond(tuple(got.qubits) == tuple(exp.qubits), f'{why}: qubits {got.qubits} vs {exp.qubits}')
         self.tags(got.tags, exp.tags, why, ordered=ordered_tags)
         gu, eu = got.untagged, exp.untagged
         ecc = isinstance(eu, cirq.ClassicallyControlledOperation)
@@ -539,16 +557,23 @@ class Cmp:
                 exprs[-1] = (g, e + 0.01, w)
             else:
                 conds.append(NOT(AND(conds)))
+        import os
+
+        dbg = bool(os.environ.get('QE_FORMAT_DEBUG'))
         c = AND(conds)
+        # labels are STABLE strings (known-findings entries match on them); the details go to notes
         if isinstance(c, bool) and not c and self.why:
-            cx.note('structure: ' + '; '.join(w for w in self.why if w)[:400])
-            cx.check(False, label=f'{label}: structure [{"; ".join(w for w in self.why if w)[:300]}]')
+            detail = '; '.join(w for w in self.why if w)[:400]
+            cx.note(f'{label} structure: ' + detail)
+            cx.check(False, label=f'{label} structure' + (f' [{detail}]' if dbg else ''))
         else:
-            cx.check(c, label=f'{label}: structure')
+            cx.check(c, label=f'{label} structure')
         if nums:
-            cx.close([g for g, _, _ in nums], [e for _, e, _ in nums], tol=self.tol, label=f'{label}: numbers [{", ".join(w for _, _, w in nums)[:200]}]')
+            if dbg:
+                cx.note(f'{label} numbers: ' + ', '.join(w for _, _, w in nums)[:300])
+            cx.close([g for g, _, _ in nums], [e for _, e, _ in nums], tol=self.tol, label=f'{label} numbers')
         if exprs:
-            cx.close([g for g, _, _ in exprs], [e for _, e, _ in exprs], tol=self.expr_tol, label=f'{label}: formulas [{", ".join(w for _, _, w in exprs)[:200]}]')
+            cx.close([g for g, _, _ in exprs], [e for _, e, _ in exprs], tol=self.expr_tol, label=f'{label} formulas')
 
 
 def _is_sym_bool(x):
